@@ -83,8 +83,11 @@ func runSet(in setIn) (out map[string]any) {
 		}
 	}()
 	a0, b0 := fromJids(in.A), fromJids(in.B)
-	a := append(object.ObjMetadataSet{}, a0...)
-	b := append(object.ObjMetadataSet{}, b0...)
+	// operands with spare capacity: an operation that appends to (a sub-slice of) its operand would write into it
+	a := make(object.ObjMetadataSet, len(a0), len(a0)+4)
+	copy(a, a0)
+	b := make(object.ObjMetadataSet, len(b0), len(b0)+4)
+	copy(b, b0)
 	x := fromJid(in.X)
 	out = map[string]any{"panic": false}
 	out["union"] = toJids(a.Union(b))
@@ -97,9 +100,37 @@ func runSet(in setIn) (out map[string]any) {
 	out["hashB"] = b.Hash()
 	_ = a.ToMap()
 	_ = a.ToStringMap()
-	out["operandsUnchanged"] = eqSets(a, a0) && eqSets(b, b0)
+	unchanged := eqSets(a, a0) && eqSets(b, b0)
 	ac := append(object.ObjMetadataSet{}, a0...)
 	out["remove"] = toJids(ac.Remove(x))
+	// no aliasing: a result is a value of its own — a second call with another argument does not rewrite the first result, and
+	// writing into a result does not change an operand
+	sentinel := fromJid(jid{"zz", "sentinel", "zz", "Zz"})
+	bx := append(append(object.ObjMetadataSet{}, b0...), x)
+	for _, op := range []func(p, q object.ObjMetadataSet) object.ObjMetadataSet{
+		func(p, q object.ObjMetadataSet) object.ObjMetadataSet { return p.Union(q) },
+		func(p, q object.ObjMetadataSet) object.ObjMetadataSet { return p.Intersection(q) },
+		func(p, q object.ObjMetadataSet) object.ObjMetadataSet { return p.Diff(q) },
+		func(p, q object.ObjMetadataSet) object.ObjMetadataSet { return p.Unique() },
+	} {
+		// (Remove is documented to work in place and is left out)
+		r1 := op(a, b)
+		s1 := append(object.ObjMetadataSet{}, r1...)
+		r2 := op(a, bx)
+		if len(r2) > 0 {
+			r2[0] = sentinel
+		}
+		if !eqSets(r1, s1) {
+			unchanged = false
+		}
+		if len(r1) > 0 {
+			r1[len(r1)-1] = sentinel
+		}
+		if !eqSets(a, a0) || !eqSets(b, b0) {
+			unchanged = false
+		}
+	}
+	out["operandsUnchanged"] = unchanged
 	return out
 }
 
